@@ -650,10 +650,12 @@ class FunctionParser(BaseParser):
                 field = self.positional_fields.get(i)
 
                 if field:
+                    # bound by position, whether the value is taken or (no_input) replaced by the default:
+                    # the keywords are parsed without it, or its default is passed a second time by keyword
+                    parsed_keys.append(field.attname)
                     if field.is_no_input(arg, options=context.options):
                         arg = field.get_default(options=context.options)
                     else:
-                        parsed_keys.append(field.attname)
                         arg = field.parse_value(arg, context=context)
                     if unprovided(arg):
                         # on_error=excluded, or error collected
